@@ -43,6 +43,17 @@ def extra(rng, tier):
                     data2 = body2 + (b"\r\n" if with_crlf else b"")
                     c2 = cfg(); c2["has_upload"] = True
                     cases.append((c2, [("read", [data2])] + finish(c2)))
+    # the same boundary with an EMPTY path (the normalised form of such a URL is one byte longer: a limit applied to anything but
+    # the line as received refuses the longest valid ones), with a port, a bracketed IPv6 host, a query, a query and params
+    for total in (1021, 1022, 1023, 1024, 1025):
+        for head in (b"gemini://example.com?", b"gemini://example.com:7070?", b"gemini://[::1]?", b"gemini://h.example", b"titan://h.example;size=0;mime=", b"gemini://EXAMPLE.com:1965?"):
+            room = total - 2 - len(head)
+            if room < 0: continue
+            line = head + (b"q" * room if not head.startswith(b"gemini://h.example") else b"".join([b"." + b"a" * 60] * (room // 61)) + b"") 
+            line = line + b"x" * (total - 2 - len(line)) if head.startswith(b"titan") or b"?" in head else line
+            for has_upload in (True, False):
+                c = cfg(); c["has_upload"] = has_upload
+                cases.append((c, [("read", [line + b"\r\n"])] + finish(c)))
     # structural corruptions of LONG lines (refusal messages that quote the offending URL grow with it): fragment, user-info,
     # missing host, missing or foreign scheme, bad port, bad Titan size - padded to lengths just below and at the limit
     for total in (900, 980, 1000, 1010, 1020, 1023, 1024):
